@@ -240,9 +240,10 @@ class MibCompiler(object):
 
                         parsedMibs[mibInfo.name] = fileInfo, mibInfo, mibTree
 
-                        if mibname in failedMibs:
-                            del failedMibs[mibname]
-                            processed.pop(mibname, None)
+                        for name in (mibname, mibInfo.name):
+                            if name in failedMibs:
+                                del failedMibs[name]
+                                processed.pop(name, None)
 
                         mibsToParse.extend(mibInfo.imported)
 
